@@ -10,6 +10,7 @@ import LpProofs.C20.Cover
 import LpProofs.C20.Cover2
 -- character level of the export/import round trip (parseDec ∘ render, tokenizer, bytes)
 import LpProofs.C20.Bytes
+import LpProofs.C20.Chunk
 namespace Lp.C20
 
 /-! ## Initialisation order -/
